@@ -203,6 +203,56 @@ def run_restest(ctx, n, d):
         shutil.rmtree(t, ignore_errors=True)
 
 
+def run_restest_counts(ctx, d):
+    """The numbers `pff restest` PRINTS for the final stage — differing bytes a/b and differing files c/n from the original — against the
+    model's tree metrics, on trees where a stage deletes files (an empty one, a non-empty one): compute_diff_stats is free to compute
+    them any way it likes, the report must be the metric of the statement."""
+    import re
+    import pyFileFixity.resiliency_tester as rt
+    scen = [('empty file deleted', {'a.bin': bytes(range(100)), 'sub/empty': b'', 'z': b'xyz'}, ['sub/empty'], {}),
+            ('non-empty file deleted', {'a.bin': bytes(range(100)), 'sub/n': b'12345', 'z': b'xyz'}, ['sub/n'], {}),
+            ('empty deleted, one byte wrong elsewhere', {'a.bin': bytes(range(100)), 'e1': b'', 'e2': b'', 'z': b'xyz'}, ['e2'], {'z': b'xyZ'}),
+            ('nothing deleted, empty file grew', {'a.bin': bytes(range(50)), 'e': b''}, [], {'e': b'Q'})]
+    for k, (name, ref, deleted, changed) in enumerate(scen):
+        t = os.path.join(d, 'rc%d' % k); os.makedirs(t)
+        orig = os.path.join(t, 'orig'); fdir = os.path.join(t, 'fin'); os.makedirs(orig); os.makedirs(fdir)
+        final = {p: changed.get(p, c) for p, c in ref.items() if p not in deleted}
+        write_tree(orig, ref); write_tree(fdir, final)
+        open(os.path.join(t, 'tamper.sh'), 'w').write(''.join('rm -f "$1/%s"\n' % p for p in deleted) or 'true\n')
+        open(os.path.join(t, 'repair.sh'), 'w').write('cp -r "%s"/. "$2"/\n' % fdir)
+        open(os.path.join(t, 'cfg'), 'w').write(RESTEST_CFG.format(t=t))
+        log = os.path.join(t, 'log.txt')
+        buf = io.StringIO()
+        try:
+            with contextlib.redirect_stdout(buf), contextlib.redirect_stderr(buf):
+                rc = rt.main(['-i', orig, '-o', os.path.join(t, 'out'), '-c', os.path.join(t, 'cfg'), '--silent', '-f', '-l', log])
+        except BaseException as e:
+            rc = 'EXC ' + repr(e)
+        text = open(log, errors='replace').read() if os.path.exists(log) else ''
+        tail = text.split('FINAL AVERAGED RESULTS')[-1]
+        i = tail.find('=> Stage: final')
+        sect = tail[i:] if i >= 0 else ''
+        mb_ = re.search(r'Differing bytes from original: (\d+)/(\d+)', sect)
+        mf_ = re.search(r'Differing files from original: (\d+)/(\d+)', sect)
+        shutil.rmtree(t, ignore_errors=True)
+        rk, ok_ = sorted(ref), sorted(final)
+        o = ctx.model.run(['diffdir 65535 %s %s %s %s' % (hxl([x.encode() for x in rk]), hxl([ref[x] for x in rk]),
+                                                         hxl([x.encode() for x in ok_]) if ok_ else '.', hxl([final[x] for x in ok_]) if ok_ else '.')])[0].split()
+        want = [int(x) for x in o[:4]]
+        got = [int(mb_.group(1)), int(mb_.group(2)), int(mf_.group(1)), int(mf_.group(2))] if mb_ and mf_ else None
+        ctx.evaluations += 1
+        ctx.count('restest_report_counts')
+        ctx.nontriv(('restest-counts', name))
+        case = {'kind': 'restest-counts', 'scenario': name}
+        nf = sum(1 for p in ref if final.get(p) != ref[p])
+        if got != want:
+            ctx.disagree(case, {'bytes': want[:2], 'files': want[2:]}, {'printed': got, 'exit': rc}, what='final-stage numbers printed by restest != tree metrics of the model')
+        if got is not None and got[2] != nf:
+            ctx.fail(case, {'printed_differing_files': got[2:], 'reference_files_without_identical_counterpart': nf, 'exit': rc})
+        elif got == want:
+            ctx.traces += 1
+
+
 def run_restest_big(ctx, d):
     """A reference tree of ~3 MB whose final tree differs in ONE byte: the error rate is below 5e-5 %, still not 0: `pff restest`
     must not report 0 / exit 0.  Property predicate only (the byte lists are too long for the line protocol of the model)."""
@@ -338,6 +388,7 @@ def run(ctx):
         run_restest(ctx, 12 if ctx.tier == 'quick' else 150, d)
         run_restest_multi(ctx, 8 if ctx.tier == 'quick' else 80, d)
         run_restest_big(ctx, d)
+        run_restest_counts(ctx, d)
     finally:
         shutil.rmtree(d, ignore_errors=True)
 
